@@ -382,20 +382,42 @@ func budgetText(r *rng) []byte {
 		}
 		t = append(t, byte('A'+rep))
 	}
+	// the bytes that end a run of copies are all smaller than the pattern (the tandem-repeat
+	// group is completed from the left only), or some smaller and some larger (from both sides:
+	// the right-hand loop of tr_partialcopy)
+	both := r.chance(50)
+	base := byte('x')
+	if both {
+		base = 'm'
+	}
 	groups := r.rangeIn(1, 2)
 	for g := 0; g < groups; g++ {
 		pl := r.rangeIn(2, 5)
 		pat := make([]byte, pl)
 		for i := range pat {
-			pat[i] = byte('x' + r.intn(3))
+			pat[i] = base + byte(r.intn(3))
 		}
 		k := r.rangeIn(3, 7)
 		copies := r.rangeIn(3, 5)
+		if both {
+			copies = r.rangeIn(3, 6)
+		}
 		for c := 0; c < copies; c++ {
-			for i := 0; i < k; i++ {
+			kk := k
+			if both && r.chance(33) {
+				kk = r.rangeIn(1, 8)
+			}
+			for i := 0; i < kk; i++ {
 				t = append(t, pat...)
 			}
-			t = append(t, byte('f'+c+5*g))
+			switch {
+			case !both:
+				t = append(t, byte('f'+c+5*g))
+			case r.chance(50):
+				t = append(t, byte('e'+c+5*g)) // below 'm'
+			default:
+				t = append(t, byte('q'+c+5*g)) // above 'o'
+			}
 		}
 	}
 	return t
@@ -414,6 +436,9 @@ func genBudgetScript(r *rng, id string, cnt counters, emit func(line, out string
 		out := e.step(l)
 		if k == 0 {
 			emit(l, out)
+		}
+		if out == "hang" {
+			break
 		}
 	}
 	// (counters are global: with parallel shards they are attributed approximately)
